@@ -9,6 +9,7 @@ pub mod c13;
 pub mod c14;
 pub mod c15;
 pub mod c16;
+pub mod c17;
 pub mod c19;
 
 pub fn lab() {
